@@ -36,7 +36,8 @@ def _node_at(ir, path):
 
 def _z3_gave_up(res):
     """the harness's z3 timeout turned a query into 'unknown': not an answer of exo"""
-    return getattr(res, "exc", None) is not None and "unknown result from z3" in str(res.exc)
+    e = getattr(res, "exc", None)
+    return e is not None and ("unknown result from z3" in str(e) or type(e).__name__ in ("ArgumentError", "Z3Exception", "SolverReturnedUnknownResultError"))
 
 
 class ForwardMonitor(Monitor):
@@ -404,6 +405,21 @@ class ForwardMonitor(Monitor):
 
 
 # ----------------------------------------------------------------------------
+def _c_digest(p):
+    """digest of the C text generated for a procedure (or the class of the rejection)"""
+    import hashlib
+
+    try:
+        return hashlib.sha1(p.c_code_str().encode()).hexdigest()[:16]
+    except CaseTimeout:
+        raise
+    except Exception as e:
+        # a failure inside the solver bindings (ctypes.ArgumentError, Z3Exception; seen after a call was
+        # interrupted by the watchdog or by an injected fault) is the harness's doing, not an answer of exo
+        solver = "unknown result from z3" in str(e) or type(e).__name__ in ("ArgumentError", "Z3Exception", "SolverReturnedUnknownResultError")
+        return ("z3:" if solver else "reject:") + type(e).__name__
+
+
 def _cursor_snapshot(cur):
     """identity-level description of a public cursor's internals: which tree it points into,
     where, and (for gaps / blocks) its side or range"""
@@ -435,6 +451,8 @@ class PurityMonitor(Monitor):
         self.registry = {}  # id(proc ir) -> (ir, fingerprint, name)
         self.cursors = []  # (Procedure, path, node)
         self.derived = []  # (gap / block cursor, snapshot of its internals when taken)
+        self.ccode = {}  # id(Procedure) -> (Procedure, digest of its generated C when first compiled)
+        self.history = []  # (index of the input procedure, step, outcome) of earlier calls, for late re-runs
         self.strs = {}
         self.note_all(sess)
         for name, p in sess.local_procs().items():
@@ -452,6 +470,10 @@ class PurityMonitor(Monitor):
         p = sess.cur
         if id(p) not in self.strs and len(self.strs) < 6:
             self.strs[id(p)] = (p, sstr(p, 100000))
+        if id(p) not in self.ccode and len(self.ccode) < 5 and self.ctx.rng.random() < 0.35:
+            # the generated C of an existing procedure is part of what must never change
+            self.ccode[id(p)] = (p, _c_digest(p))
+            self.ctx.stat("purity.c_compiles")
         ir = p._loopir_proc
         st = irutil.all_stmts(ir)
         if st:
@@ -524,6 +546,16 @@ class PurityMonitor(Monitor):
                 except Exception as e:
                     bad = {"what": "cursor_dangling", "error": type(e).__name__}
                     break
+        if bad is None and self.n % 3 == 0 and phase in ("accepted", "rerun"):
+            for key, (p, dig) in self.ccode.items():
+                if p is sess.cur:
+                    continue
+                ctx.stat("purity.c_rechecks")
+                d2 = _c_digest(p)
+                if d2 != dig and not (str(dig).startswith("z3") or str(d2).startswith("z3")):
+                    bad = {"what": "generated_c_changed", "first": str(dig)[:60], "now": str(d2)[:60]}
+                    self.ccode[key] = (p, d2)
+                    break
         if bad is None and self.n % 5 == 0:
             for key, (p, s) in self.strs.items():
                 ctx.stat("purity.str_checks")
@@ -561,6 +593,27 @@ class PurityMonitor(Monitor):
         # poisoned caches: the same op on the same (old) procedure answers the same
         if self.rerun_every and self.n % self.rerun_every == 0:
             self.rerun(sess, step, old, result)
+        # ... also much later, after other procedures of the family were analysed, scheduled and
+        # compiled (state carried over between calls: memo tables keyed by a symbol that derived
+        # procedures share, summaries of callees edited in place)
+        old_index = len(sess.procs) - (2 if result.status == "accepted" else 1)
+        if not _z3_gave_up(result):
+            outcome = (result.status, irutil.fingerprint(result.proc._loopir_proc, alpha=True) if result.status == "accepted" else type(result.exc).__name__)
+            self.history.append((old_index, step, outcome))
+            self.history = self.history[-12:]
+        if self.rerun_every and len(self.history) > 3 and self.n % 3 == 1:
+            k = ctx.rng.randrange(0, len(self.history) - 2)
+            oi, st, out = self.history[k]
+            r2 = self._apply_again(sess, st, oi)
+            ctx.stat("purity.late_reruns")
+            if _z3_gave_up(r2):
+                ctx.inconclusive("z3_timeout")
+            else:
+                b = (r2.status, irutil.fingerprint(r2.proc._loopir_proc, alpha=True) if r2.status == "accepted" else type(r2.exc).__name__)
+                if b != out:
+                    sig = {"prop": "C07", "monitor": "late-rerun", "kind": f"{out[0]}-then-{b[0]}", "op": st["op"]}
+                    ctx.violation(sig, mk_case(sess, sess.steps, "late-rerun", None, {"old_index": oi, "step": st, "first": list(out), "second": list(b)}))
+                    self.history.pop(k)
         if self.fault_every and self.n % self.fault_every == 0:
             self.inject(sess, step, old, result)
 
